@@ -39,6 +39,8 @@ pub fn usize_near(rng: &mut SmallRng, len: usize) -> Value {
 pub struct Gen {
     pub cfg: GenCfg,
     pub rng: SmallRng,
+    /// the previous operation promised room (with_capacity / reserve / try_reserve): take it at its word next
+    pub promised: bool,
 }
 
 impl Gen {
@@ -304,11 +306,16 @@ impl Gen {
                 return json!({"op":"FromIter","s":s,"ty":ty,"hm":self.cfg.hm,"items":items,"hint":hint});
             }
             let hs = if self.cfg.two { self.rng.gen_range(0..3u64) } else { 0 };
+            self.promised = cap > 0;
             return json!({"op":"New","s":s,"ty":ty,"cap":cap,"hm":self.cfg.hm,"hs":hs});
         }
         let st = w.vstate(s).unwrap();
         let split = st.split;
         let len = st.main_len + st.old_len;
+        // C10: "n insertions without reallocation" after with_capacity(n) / reserve(n): fill the promised room
+        if std::mem::replace(&mut self.promised, false) && !self.cfg.zst && st.main_cap - st.main_len < 300 && self.rng.gen_bool(0.25) {
+            return json!({"op":"Probe","s":s});
+        }
         if self.cfg.par && self.rng.gen_bool(if split { 0.45 } else { 0.15 }) {
             return self.par_op(w, s, nslots);
         }
@@ -434,8 +441,10 @@ impl Gen {
                     let nm = if self.rng.gen_bool(0.5) { "TryReserve" } else { "Reserve" };
                     json!({"op":nm,"s":s,"n": usize_near(&mut self.rng, len)})
                 } else if self.rng.gen_bool(0.5) {
+                    self.promised = true;
                     json!({"op":"Reserve","s":s,"n":n})
                 } else {
+                    self.promised = true;
                     json!({"op":"TryReserve","s":s,"n":n})
                 }
             }
